@@ -92,6 +92,8 @@ impl<T: Read + Seek> PagedReader<T> {
         let offset = page * self.page_size;
         // The buffer will be overwritten, so any previously loaded page is no longer valid
         self.page_num = None;
+        #[cfg(e57_verif)]
+        crate::verif::work_add(self.page_buffer.len());
         self.reader.seek(SeekFrom::Start(offset))?;
         self.reader.read_exact(&mut self.page_buffer)?;
         let data_size = self.page_size - CHECKSUM_SIZE;
